@@ -499,10 +499,18 @@ func (i *Interpreter) ExecuteRoute(route *Route, request *Request) (*Response, e
 	// Create a new environment for the route
 	routeEnv := NewChildEnvironment(i.globalEnv)
 
-	// Extract path parameters
-	params, err := extractPathParams(route.Path, request.Path)
-	if err != nil {
-		return nil, err
+	// Path parameters. A caller that has already routed the request (the HTTP
+	// server) hands over the bindings its router made; re-deriving them from
+	// Path would split the path a second time with different rules, and Path
+	// is cut at the first "?", which a decoded %3F inside a segment also is.
+	// Without bindings (direct callers, tests) they are derived from Path.
+	params := request.Params
+	if len(params) == 0 {
+		var err error
+		params, err = extractPathParams(route.Path, request.Path)
+		if err != nil {
+			return nil, err
+		}
 	}
 
 	// Add path parameters to environment
